@@ -28,6 +28,7 @@ WHAT={
 "W-inline-unify-neg": ("src/ngo/utils/ast.py:192-227 _potentially_unifying (Function vs UnaryOperation declared non-unifying) used by inline", "tuples `F,f(V)` and `A,-B` can coincide when B = -f(1); inlining then changes #sum from 5 to 10"),
 "W-unused-show-term-pool": ("src/ngo/unused.py:86-129 analyze_usage (show-term bodies not scanned)", "`#show a : s(1;2).` becomes `#show a : s.` twice: a non-rule statement is changed"),
 "W-domain-ignores-input": ("src/ngo/dependency.py DomainPredicates.__compute_domains (facts of declared input predicates are not part of the domain)", "`{a(X)} :- d(X).` with input a/1: instance fact a(5) is not in __dom_a, so __dom_b misses b(5,1) and the rewritten constraint never fires"),
+"W-unused-mapper-set-order": ("src/ngo/unused.py:168-176 Mapper.__init__ (`for v in vars_` iterates a set of AST nodes whose hash is address dependent)", "optimize is not reproducible across processes: the use-site variable A11 is captured in about half of the runs (`b(f(1,..),1)` instead of `b(f(A11,..),1)`), independent of PYTHONHASHSEED"),
 "W-duplication-selfeq": ("src/ngo/utils/ast.py:771-812 replace_assignments", "`X = X*3` substituted away by duplication's replace_assignments / postprocess"),
 }
 findings=[{"id":"C18-pool","properties":["C18"],"site":"src/ngo/utils/ast.py:293-302 literal_predicate (symbol.ast_type == Function only)","witness":{"text":"a :- p(1;2)."},"what":"atom written with a pool (a :- p(1;2).) is skipped by every predicate collector: auto_detect_input returns [] although p/1 occurs only in a body","matcher":"c18_unpool"}]
@@ -38,7 +39,7 @@ for w in W:
     if w["id"] in FIXED:
         fixed.append("fixed: property="+w["props"][0]+" "+FIXED[w["id"]]+" "+what+" ("+site+")")
         continue
-    wit={k:w[k] for k in ("check","text","traits","input","output","mode","instances") if k in w}
+    wit={k:w[k] for k in ("check","xproc","runs","text","traits","input","output","mode","instances") if k in w}
     props=w["props"]
     if w["id"].startswith("W-normalize"): props=sorted(set(props)|{"C01","C02","C05","C06","C08","C09","C10","C11","C12","C13","C14","C15","C16"})
     findings.append({"id":w["id"][2:],"properties":props,"site":site,"witness":wit,"what":what,"matcher":"text"})
@@ -82,6 +83,7 @@ for e in json.load(open("/tmp/sweep_C03.json")):
     c=e["case"]
     findings.append({"id":"crash-"+k[1].replace(".py:","-"),"properties":["C03","C01"],"site":"src/ngo/"+k[1],"witness":{"check":"c03","text":c["text"],"traits":c["traits"],"input":c["input"],"output":c["output"]},
                      "exc":k[0],"exc_site":k[1],"what":SITES.get(k, k[0]+" in "+k[1]),"matcher":"exc_site"})
+fixed.append("fixed: property=C03 b1156a8 any rule with a head #sum/#count/#min/#max aggregate made unused.analyze_usage raise TypeError: 'AST' object is not iterable (src/ngo/unused.py:86-93; e.g. `#sum{1,X : e(X) : f(X)} <= 2 :- g.` under the default traits)")
 json.dump({"comment":"Genuine defects of the unchanged potassco/ngo tree that are recorded rather than repaired (DESIGN.md section 6 / appendix B). Never written at run time. Each entry: id, properties, call site, witness (what the oracle replays), what fails, matcher (how a concrete failure is attributed to this entry: `text` = the failing program text equals the witness text; `c18_unpool` = the failure disappears after unpooling).",
            "findings":findings,"fixed":fixed}, open("/verif/known_findings.json","w"), indent=1)
 print(len(findings)); 
